@@ -26,6 +26,8 @@ class C11(F.Spec):
             yield self.gen_scenario(rng, i)
         for i in range(3 if tier == "quick" else 12):
             yield self.gen_scenario(rng, i, late=True)
+        for i in range(80 if tier == "quick" else 1200):
+            yield self.gen_at(rng, i)
 
     def gen_probe(self, rng, i):
         ops = ["board relay4", "init", "adv 1000"]
@@ -73,7 +75,109 @@ class C11(F.Spec):
         return F.Case("scen%d%s" % (i, "-late" if late else ""), ops, {"tags": ["kind:scenario"] + (["late"] if late else []), "kind": "scenario", "pulses": pulses, "pin": pin,
                                                                           "noshrink": late})
 
+    PRESS = [1 << (10 + k) for k in range(1, 6)]
+    TOGGLE = [1 << (1 + k) for k in range(1, 6)]
+
+    def at_defaults(self):
+        """BTN_HOLD_TIME_MS / BTN_MULTICLICK_TIME_MS as regenerated from the source"""
+        if not hasattr(self, "_atd"):
+            import re, os, common as C
+            txt = open(os.path.join(C.LEAN, "SuplaVerif", "Gen", "Consts.lean")).read()
+            self._atd = (int(re.search(r"def atHoldMs : Nat := (\d+)", txt).group(1)), int(re.search(r"def atMultiMs : Nat := (\d+)", txt).group(1)))
+        return self._atd
+
+    def gen_at(self, rng, i):
+        """action-trigger mode: bursts of quick clicks, long presses and pauses on a monostable or bistable button with a
+        random set of active triggers (changed in between), with and without a relay behind the button"""
+        typ = rng.choice([2, 2, 4])
+        has_relay = rng.random() < .75
+        cap = sum(self.PRESS) | 1024 if typ == 2 else sum(self.TOGGLE) | 3
+        hold, multi = rng.choice([self.at_defaults(), self.at_defaults(), (500, 400), (1000, 350)])
+        ops = ["board relay2", "inlevel 9 1", "inlevel 10 1", "intype 1 %d" % typ, "incap 1 5 %d" % cap]
+        if not has_relay:
+            ops.append("inrelay 1 255")
+        ops += ["init", "adv 1000", "inlog 1", "calllog 1"]
+        if (hold, multi) != self.at_defaults():
+            ops.append("attimes %d %d" % (hold, multi))
+
+        def mask():
+            pool = (self.PRESS + [1024]) if typ == 2 else (self.TOGGLE + [1, 2])
+            m = 0
+            for b in pool:
+                if rng.random() < .4:
+                    m |= b
+            if rng.random() < .15:
+                m |= 1 << 20            # something the input is not capable of
+            return m or rng.choice(pool)
+        ops.append("attrig 1 %d" % mask())
+        lvl = 1
+
+        def wait(us):
+            while us > 0:                # cut so that the keep-alive is answered in long pauses
+                k = min(us, 900000)
+                ops.append("advus %d" % k)
+                us -= k
+                if k == 900000:
+                    ops.append("pingreply")
+        for _ in range(rng.randint(1, 5)):
+            g = rng.choice(["clicks", "clicks", "clicks", "hold", "retrig"])
+            if g == "clicks":
+                for _ in range(rng.randint(1, 7)):
+                    lvl = 1 - lvl
+                    ops.append("input 10 %d" % lvl)
+                    wait(rng.randint(141000, min(multi, hold) * 1000 - 25000))
+                    if typ == 2:
+                        lvl = 1 - lvl
+                        ops.append("input 10 %d" % lvl)
+                        wait(rng.randint(141000, multi * 1000 - 25000))
+            elif g == "hold":
+                lvl = 1 - lvl
+                ops.append("input 10 %d" % lvl)
+                wait(rng.randint(hold * 1000 - 150000, hold * 1000 + 600000))
+                if typ == 2:
+                    lvl = 1 - lvl
+                    ops.append("input 10 %d" % lvl)
+            else:
+                ops.append("attrig 1 %d" % mask())
+            wait(rng.choice([rng.randint(141000, multi * 1000 - 25000), multi * 1000 + rng.randint(150000, 400000), 1200000]))
+        wait(1500000)
+        return F.Case("at%d-%s" % (i, "mono" if typ == 2 else "bi"), ops,
+                      {"tags": ["kind:at", "type:%d" % typ, "relay:%d" % has_relay], "kind": "at", "typ": typ, "has_relay": has_relay,
+                       "cap": cap, "hold": hold, "multi": multi, "noshrink": True})
+
+    def derive_at(self, case, raw):
+        me = case.meta
+        ops = ["atcfg %d %d 5 %d 0 0 0 %d %d 5000" % (me["typ"], me["cap"], 1 if me["has_relay"] else 0, me["hold"], me["multi"])]
+        exp = [[]]
+        live = False
+        for op, g in zip(case.ops, raw):
+            t = op.split()
+            tnow = [x for x in g if x.startswith("TNOW ")]
+            if t[0] == "attrig":
+                cfg = [x for x in g if x.startswith("ATCFG 1 ")]
+                if not cfg:
+                    break
+                f = dict(kv.split("=") for kv in cfg[0].split()[2:])
+                ops.append("attrig %s" % t[2])
+                exp.append(["ATCFG active=%s max=%s relay=%d" % (f["active"], f["max"], 0 if f["relay"] == "255" else 1)])
+                live = f["active"] != "0"
+                continue
+            if not live or not tnow or t[0] not in ("advus", "adv", "input", "pingreply"):
+                continue
+            evs = ["%s@%s" % (x.split()[2], x.split()[3]) for x in g if x.startswith("INCHG 1 ")]
+            ops.append("span %s %s" % (tnow[-1].split()[1], " ".join(evs)))
+            want = []
+            for x in g:
+                if x.startswith("CALL at 5 "):
+                    want.append("AT trig " + x.split()[4])
+                elif x.startswith("RELAYHI 2 "):
+                    want.append("AT local")
+            exp.append(want)
+        return "\n".join(ops) + "\n", exp
+
     def derive_model(self, case, raw):
+        if case.meta.get("kind") == "at" or (case.meta.get("kind") is None and any(o.startswith("attrig ") for o in case.ops)):
+            return self.derive_at(case, raw)
         ops, exp = [], []
         for op, g in zip(case.ops, raw):
             if op.startswith("debprobe "):
@@ -94,6 +198,8 @@ class C11(F.Spec):
         if rc != 0:
             return [F.Finding("crash", "implementation aborted (rc=%s): %s" % (rc, err[-900:]))]
         fs = []
+        if case.meta.get("kind") == "at":
+            return self.monitor_at(case)
         if case.meta.get("kind") != "scenario":
             return fs
         raw = case.meta.get("raw_impl") or []
@@ -134,7 +240,123 @@ class C11(F.Spec):
             fs.append(F.Finding("relay-toggle-count", "%d recognised presses but %d relay changes" % (n_act, len(toggles))))
         return fs
 
+    def monitor_at(self, case):
+        """independent reading of the property on clean gestures: a burst of N quick clicks (all presses shorter than the hold
+        time, all gaps shorter than the multi-click time, quiet before and after, the set of active triggers unchanged) is
+        resolved once, as min(N, highest enabled multiplicity) clicks: the local relay action for one click (if the relay
+        is still connected to the button), otherwise the trigger of that count if it is enabled; nothing else"""
+        me = case.meta
+        raw = me.get("raw_impl") or []
+        typ, hold, multi = me["typ"], me["hold"] * 1000, me["multi"] * 1000
+        count_bits = self.PRESS if typ == 2 else self.TOGGLE
+        ev = []            # (time, kind, value)
+        tnow = 0
+        for op, g in zip(case.ops, raw):
+            for x in g:
+                p = x.split()
+                if p[0] == "INCHG" and p[1] == "1":
+                    ev.append((int(p[3]), "chg", int(p[2])))
+                elif p[0] == "ATCFG" and p[1] == "1":
+                    f = dict(kv.split("=") for kv in p[2:])
+                    ev.append((int(f["now"]), "cfg", (int(f["active"]), int(f["max"]), f["relay"] != "255")))
+                elif p[0] == "CALL" and p[1] == "at" and p[2] == "5":
+                    ev.append((int(p[5]), "trig", int(p[4])))
+                elif p[0] == "RELAYHI" and p[1] == "2":
+                    ev.append((int(p[3]), "local", 0))
+                elif p[0] == "TNOW":
+                    tnow = int(p[1])
+        # triggers carry the time of the end of their op; order within the list is the order of the trace
+        fs = []
+        cfg = None
+        chg = [(t, v) for t, k, v in ev if k == "chg"]
+        cfgs = [(t, v) for t, k, v in ev if k == "cfg"]
+        outs = [(t, k, v) for t, k, v in ev if k in ("trig", "local")]
+        # every trigger must be active at the time, every count trigger / local action belongs to some click
+        for t, k, v in outs:
+            act = [c for ct, c in cfgs if ct <= t]
+            if k == "trig" and act and not (v & act[-1][0]):
+                fs.append(F.Finding("inactive-trigger-sent", "trigger %d sent while the active set is %d" % (v, act[-1][0])))
+        # clicks: monostable = press..release pairs; bistable = every change
+        if typ == 2:
+            clicks = []
+            for j in range(len(chg) - 1):
+                if chg[j][1] == 1 and chg[j + 1][1] == 0:
+                    clicks.append((chg[j][0], chg[j + 1][0]))
+        else:
+            clicks = [(t, t) for t, v in chg]
+        # bursts of quick clicks
+        bursts, cur = [], []
+        for c in clicks:
+            if cur and c[0] - cur[-1][1] < multi - 60000:
+                cur.append(c)
+            else:
+                if cur:
+                    bursts.append(cur)
+                cur = [c]
+        if cur:
+            bursts.append(cur)
+        for bi, b in enumerate(bursts):
+            t0, t1 = b[0][0], b[-1][1]
+            prev_end = bursts[bi - 1][-1][1] if bi else 0
+            next_start = bursts[bi + 1][0][0] if bi + 1 < len(bursts) else None
+            act = [c for ct, c in cfgs if ct <= t0]
+            if not act or act[-1][0] == 0:
+                continue
+            active, _, relay_conn = act[-1]
+            if any(t0 - 2 * multi - hold <= ct <= t1 + 2 * multi for ct, c in cfgs):
+                continue          # the active set changed around the burst
+            if t0 - prev_end < multi + 100000 and bi:
+                continue          # not clearly separated from the previous burst
+            if next_start is not None and next_start - t1 < multi + 100000:
+                continue
+            if typ == 2 and any(r - p >= hold - 60000 for p, r in b):
+                continue          # contains a long press: judged below
+            if any(b[j + 1][0] - b[j][1] > multi - 60000 for j in range(len(b) - 1)):
+                continue
+            N = len(b)
+            M = max([k + 1 for k in range(5) if active & count_bits[k]] or [0])
+            win = [(t, k, v) for t, k, v in outs if t0 <= t <= t1 + multi + 1000000 and (next_start is None or t < next_start)]
+            cnt_tr = [v for t, k, v in win if k == "trig" and v in count_bits]
+            loc = [1 for t, k, v in win if k == "local"]
+            if M >= 2:
+                kk = min(N, M)
+                want_loc = 1 if (kk == 1 and relay_conn) else 0
+                want_tr = [count_bits[kk - 1]] if (not want_loc and active & count_bits[kk - 1]) else []
+            else:
+                # no multiplicity above one is enabled: every click is a gesture of its own
+                want_loc = N if relay_conn else 0
+                want_tr = [count_bits[0]] * N if (not relay_conn and active & count_bits[0]) else []
+            if cnt_tr != want_tr or len(loc) != want_loc:
+                fs.append(F.Finding("gesture-resolved-wrongly", "%d quick clicks, active set %d (highest multiplicity %d), relay %s: "
+                                    "click triggers %s and %d local actions, expected %s and %d" % (
+                                        N, active, M, "connected" if relay_conn else "not connected", cnt_tr, len(loc), want_tr, want_loc)))
+        # a single long press from idle: one hold trigger if enabled, no click trigger, no local action
+        if typ == 2:
+            for j, (p, r) in enumerate(clicks):
+                act = [c for ct, c in cfgs if ct <= p]
+                if not act or act[-1][0] == 0 or any(p - 2 * multi - hold <= ct <= r + 2 * multi for ct, c in cfgs):
+                    continue
+                if r - p < hold + 60000:
+                    continue
+                before = clicks[j - 1][1] if j else 0
+                after = clicks[j + 1][0] if j + 1 < len(clicks) else None
+                if (j and p - before < multi + 100000) or (after is not None and after - r < multi + 100000):
+                    continue
+                win = [(t, k, v) for t, k, v in outs if p <= t <= r + multi + 1000000 and (after is None or t < after)]
+                holds = [v for t, k, v in win if k == "trig" and v == 1024]
+                others = [v for t, k, v in win if (k == "trig" and v in count_bits) or k == "local"]
+                want = [1024] if act[-1][0] & 1024 else []
+                if holds != want or others:
+                    fs.append(F.Finding("hold-resolved-wrongly", "a %d ms press from idle (hold time %d ms, active set %d): hold triggers %s, "
+                                        "click triggers/local actions %d" % ((r - p) // 1000, hold // 1000, act[-1][0], holds, len(others))))
+        return fs
+
     def nontrivial_key(self, case, groups):
+        if case.meta.get("kind") == "at":
+            raw = case.meta.get("raw_impl") or []
+            tr = sorted(set(x.split()[4] for g in raw for x in g if x.startswith("CALL at 5 ")))
+            loc = sum(1 for g in raw for x in g if x.startswith("RELAYHI 2 "))
+            return ("at", case.meta["typ"], tuple(tr[:6]), min(loc, 3))
         raw = case.meta.get("raw_impl") or []
         n = sum(1 for g in raw for x in g if x.startswith(("NOTIFY", "CHG InState")))
         st = sum(1 for g in raw for x in g if x.startswith("STEP"))
